@@ -275,6 +275,12 @@ func c08R2(h H) {
 		}
 		seen[k] = true
 		cl, ok := effectTable[k]
+		if !ok && e.Kind == "go" && startServersScope(h.p)[e.In.Parent()] {
+			// whatever the goroutines started by startServers (or the helpers it was split into) are made of: they are
+			// the serving and bookkeeping goroutines of the instance, harmless provided they start only after every
+			// listener was obtained and nothing fallible follows — which R3 decides
+			cl, ok = effectClass{"benign", "goroutine of startServers; started only after every listener was opened, no fallible step follows (R3 checks the order)"}, true
+		}
 		switch {
 		case !ok:
 			r.Fail("R2", k, e.In.Pos(), "unclassified process-lasting effect on the configuration-load path: a load can still fail after this point and nothing undoes it (casket runs no callback of a discarded instance)", e.Kind, e.What)
@@ -1189,5 +1195,17 @@ func callsToFunc(g, f *ssa.Function) []ssa.Instruction {
 			out = append(out, in)
 		}
 	})
+	return out
+}
+
+
+// startServersScope: startServers, its closures and the same-package helpers it calls.
+func startServersScope(p *Program) map[*ssa.Function]bool {
+	out := map[*ssa.Function]bool{}
+	if fn := p.Func("", "startServers"); fn != nil {
+		for _, g := range withHelpers(fn, 3) {
+			out[g] = true
+		}
+	}
 	return out
 }
